@@ -177,6 +177,23 @@ fn expansion_holds(hc: &Circ, exact: bool) -> Result<bool, Caught> {
     Ok(u0.same(&u1, FLOAT_TOL))
 }
 
+/// The same circuit as `to_quizx(hc)`, but built the way the extractor builds circuits:
+/// the tail with `push`, then the head with `push_front` in reverse order. The gate
+/// sequence is identical, the memory layout of the VecDeque is not (it wraps around), and
+/// in-place operations are applied to this very object, never to a clone (cloning a
+/// VecDeque makes it contiguous again).
+fn to_quizx_wrapped(hc: &Circ, split: usize) -> quizx::circuit::Circuit {
+    let mut q = quizx::circuit::Circuit::new(hc.n);
+    let k = split.min(hc.gates.len());
+    for g in &hc.gates[k..] {
+        q.push(to_gate(g));
+    }
+    for g in hc.gates[..k].iter().rev() {
+        q.push_front(to_gate(g));
+    }
+    q
+}
+
 fn check_circuit(family: &'static str, index: u64, hc: &Circ) {
     let c = ctx();
     let exact = hc.is_pi4();
@@ -195,9 +212,14 @@ fn check_circuit(family: &'static str, index: u64, hc: &Circ) {
 
     // ---- 1. adjoint ----------------------------------------------------------------
     c.count("op:to_adjoint", 1);
+    let split = if hc.gates.is_empty() { 0 } else { 1 + (index as usize + hc.gates.len()) % hc.gates.len() };
     match guarded(|| {
         let a = qc.to_adjoint();
-        let mut b = qc.clone();
+        // in place, on a circuit assembled with push_front + push (wrapped deque)
+        let mut b = to_quizx_wrapped(hc, split);
+        if b != qc {
+            panic!("harness: wrapped construction differs");
+        }
         b.adjoint();
         (a, b)
     }) {
@@ -320,11 +342,12 @@ fn check_circuit(family: &'static str, index: u64, hc: &Circ) {
     // ---- 3. reverse -----------------------------------------------------------------
     c.count("op:reverse", 1);
     match guarded(|| {
-        let mut r1 = qc.clone();
+        // in place on the wrapped construction, and the second reversal on the same object
+        let mut r1 = to_quizx_wrapped(hc, split);
         r1.reverse();
-        let mut r2 = r1.clone();
-        r2.reverse();
-        (r1, r2)
+        let snapshot = r1.clone();
+        r1.reverse();
+        (snapshot, r1)
     }) {
         Err(e) => {
             panic_violation("reverse", &e, family, index, input.clone());
